@@ -27,9 +27,9 @@ REPLAY_DIR = os.path.join(ROOT, "replays")
 
 # runs, wall budget (s) for the main batch, determinism sample size.
 TIERS = {
-    "C07": {"quick": (1600, 150, 24), "thorough": (60000, 1500, 240)},
-    "C03": {"quick": (400, 200, 16), "thorough": (9000, 1800, 200)},
-    "C11": {"quick": (300, 200, 16), "thorough": (6000, 1800, 200)},
+    "C07": {"quick": (3000, 150, 24), "thorough": (80000, 1500, 240)},
+    "C03": {"quick": (1200, 240, 16), "thorough": (14000, 1800, 200)},
+    "C11": {"quick": (700, 240, 16), "thorough": (9000, 1800, 200)},
 }
 CHUNK = {"C07": 20, "C03": 4, "C11": 4}
 
